@@ -18,7 +18,7 @@ from simkit import vclock, pipeline as pl
 from simkit.lifecycle import LoggingTestResult
 
 ID = "C17"
-RUNS = {"quick": 400_000, "thorough": 3_000_000}
+RUNS = {"quick": 320_000, "thorough": 3_000_000}
 SIM_TIME_UNIT = "reporter calls"
 RULE = (
     "each run = a scripted reporter issuing a history that interleaves startTestRun, tags(new, gone) with disjoint "
